@@ -129,6 +129,7 @@ def evaluate(e, env):
         if isinstance(base, _re.Pattern) and e.attr in ("pattern", "flags"): return getattr(base, e.attr)
         if e.attr == "__class__" and (base is None or isinstance(base, (str, int, float, tuple, list, set, frozenset, bytes))) and not isinstance(base, SList): return PyFn(type(base))      # the class of a primitive value
         if isinstance(base, PyFn) and isinstance(base.fn, type) and e.attr == "__name__": return base.fn.__name__
+        if isinstance(base, type) and base in (int, float, str, bool, list, dict, tuple, set, type(None)) and e.attr == "__name__": return base.__name__
         if isinstance(base, InstObj):
             if e.attr == "__dict__": return base.own
             if e.attr == "__class__": return base.cls
